@@ -443,3 +443,9 @@ seed('c18-n-window-average-commuted', 'C18', [(CCT, "double newCost = ((solution
 seed('c19-period-first', 'C19', [(PTC, "                if (terminate_)\n                    return true;\n                if (period_ > 0.0)\n                    return evalValue_;", "                if (period_ > 0.0)\n                    return evalValue_;\n                if (terminate_)\n                    return true;")], 'R19f')
 seed('c12-sibling-parity-lost', 'C12', [(PDFH, "if (index + 2 == data_.size() && index % 2 == 0)", "if (index + 2 == data_.size())")], 'R12c')
 seed('c13-border-by-maxneighbors', 'C13', [(GRIDB, "if (!c->border && c->neighbors < GridN<_T>::interiorCellNeighborsLimit_)", "if (!c->border && c->neighbors < GridN<_T>::maxNeighbors_)")], 'R13b')
+PRMC = 'src/ompl/geometric/planners/prm/src/PRM.cpp'
+FMTC = 'src/ompl/geometric/planners/fmt/src/FMT.cpp'
+GSST = 'src/ompl/geometric/planners/sst/src/SST.cpp'
+seed('c04-prm-argmin-bound-not-updated', 'C04', [(PRMC, "                        solution = p;\n                        sol_cost = pathCost;\n", "                        solution = p;\n")], 'R04e')
+seed('c04-fmt-bestparent-heuristic', 'C04', [(FMTC, "const base::Cost dist = opt_->motionCost(s, m->getState());", "const base::Cost dist = opt_->motionCostHeuristic(s, m->getState());")], 'R04i')
+seed('c04-sst-inccost-heuristic', 'C04', [(GSST, "base::Cost incCost = opt_->motionCost(nmotion->state_, rstate);", "base::Cost incCost = opt_->motionCostHeuristic(nmotion->state_, rstate);")], 'R04i')
